@@ -477,6 +477,8 @@ def harness_specs(tier):
         specs.append(dict(ADL))
     if not os.environ.get('C10_ONLY') or 'h_c10s' in os.environ['C10_ONLY']:
         specs.append(dict(name='h_c10s', src='h_c10s.cpp', flavour='fast'))      # number-typed views into supplied scalar outputs
+    if not os.environ.get('C10_ONLY') or 'h_c17_lin' in os.environ['C10_ONLY']:
+        specs.append(dict(name='h_c17_lin', src='h_c17_lin.cpp', flavour='fast'))      # (C17's TU) eager wrappers with optional arguments vs their views
     if not os.environ.get('C10_ONLY') or 'h_c08e' in os.environ['C10_ONLY']:
         specs.append(dict(name='h_c08e', src='h_c08e.cpp', flavour='fast'))      # (C08's TU) accumulate / reduce with a wider result dtype: view vs eval
     return specs
@@ -708,10 +710,22 @@ def dtype_eval_cases(tier, rng):
             yield Case(req, 'h_c08e', oracle=c.oracle, model=False, nontrivial=True, tags=['dtype-eval', 'api=' + api])
 
 
+def optional_arg_cases(tier, rng):
+    """eager wrappers that FORWARD optional arguments to their view (cosine_similarity / pairwise_distance with an explicit
+    eps): array::fn(args) must equal the evaluated view::fn(args) (seeded change C10-4)."""
+    if os.environ.get('C10_ONLY') and 'h_c17_lin' not in os.environ['C10_ONLY']:
+        return
+    import importlib
+    c17 = importlib.import_module('props.c17')
+    for c in c17.gen_eps_forms(tier, random.Random(rng.random())):
+        yield Case(c.req, 'h_c17_lin', oracle=c.oracle, model=False, nontrivial=True, cmp=c.cmp, tags=['optional-argument-forwarding'] + [t for t in c.tags if t.startswith('api=')])
+
+
 def gen(tier, rng):
     yield from nothing_cases(tier)
     yield from intonum_cases(tier, rng)
     yield from dtype_eval_cases(tier, rng)
+    yield from optional_arg_cases(tier, rng)
     yield from adl_cases()
     yield from intofn_cases(tier, rng)
     for t in TUS:
